@@ -254,6 +254,8 @@ def gen_case(rng, quick, default_regressor=False):
     for i in range(nreq):
         x = [rng.randint(-50, 50) for _ in range(n)]
         h = [PRED_BASE + rng.randint(0, 999) for _ in range(nobj)] if rng.random() < p_accept else None
+        if h is not None and rng.random() < 0.04:
+            h = []       # the hook "returns a value" that happens to be falsy: still a prediction, not a decline
         requests.append((x, h))
     ts = rng.choice([None, -1, 1, 2, 3, 5, 7, 10, nreq, nreq + 1, rng.randint(1, 30)])
     case = {"wrapper": wrapper, "n": n, "obj": obj, "requests": requests, "train_step": ts,
